@@ -226,6 +226,11 @@ class BinningBase:
         """
         if value and not self.adaptive_allowed:
             raise RuntimeError("Cannot change binning to adaptive.")
+        if value and self.includes_right_edge:
+            # (As in the constructor)
+            raise ValueError(
+                "Adaptivity does not work together with right-edge inclusion."
+            )
         self._adaptive = value
 
     def _adapt(self, other):
